@@ -990,6 +990,13 @@ class Analyzer(Analysis):
                     if self.final:
                         self.events.append(ev)
                     return
+                elif v is not None and v[0] == "adt" and v[2] in ("Ok", "Some") and args[0]["o"] in ("copy", "move"):
+                    self.write(st, dest_key, ("adt", "ControlFlow", "Continue", (), ()))
+                    ak = self.key_of(st, args[0]["pl"], bi, -1)
+                    self.copy_tree(st, ak + "@" + v[2], dest_key + "@Continue")
+                    if self.final:
+                        self.events.append(ev)
+                    return
                 elif v is not None and v[0] == "adt" and v[2] in ("Ok", "Some"):
                     result = ("adt", "ControlFlow", "Continue", (), ())
                 elif v is not None and v[0] == "adt" and v[2] in ("Err", "None"):
